@@ -1765,6 +1765,8 @@ func (n *node) unregisterProcess(p *process, reason error) {
 	lib.VerifPoint("unreg.delete", p)
 	n.processes.Delete(p.pid)
 	n.RouteTerminatePID(p.pid, reason)
+	// drop the links/monitors this process had requested
+	n.targetManager.CleanupConsumer(p.pid)
 
 	if p.application != system.Name {
 		// do not count system app processes
